@@ -44,10 +44,14 @@ def c05(tier):
 
 
 def c03(tier):
-    if tier == "quick":
+    # the decoding of one connection's stream must not depend on what other connections of the process are doing
+    # (the inflaters come from a process-wide pool): groups of connections reading compressed streams concurrently
+    q = tier == "quick"
+    sh = lambda: reader.run_rshare("C03", tier, [("MC_C03.tla", "MC_C03_quick.cfg")], 60 if q else 1500, nconn=6, race=True)
+    if q:
         return reader.run_reader_check("C03", tier, [("MC_C03.tla", "MC_C03_quick.cfg")], mult=1, max_progs=3000,
-                                       assumptions=BASE_ASSUME)
-    return reader.run_reader_check("C03", tier, [("MC_C03.tla", "MC_C03_thorough.cfg")], mult=2, assumptions=BASE_ASSUME)
+                                       assumptions=BASE_ASSUME + CONC_ASSUME[1:2], extra=sh)
+    return reader.run_reader_check("C03", tier, [("MC_C03.tla", "MC_C03_thorough.cfg")], mult=2, assumptions=BASE_ASSUME + CONC_ASSUME[1:2], extra=sh)
 
 
 def c08(tier):
